@@ -51,6 +51,11 @@ type Zlisp struct {
 
 	// API use, since infix is already default at repl
 	WrapLoadExpressionsInInfix bool
+
+	// sandboxed: made by NewZlispSandbox. StandardSetup then leaves out
+	// the builders and macros that reach the outside world (sys, import,
+	// req) and the include special form refuses to read files.
+	sandboxed bool
 }
 
 // allow clients to establish a callback to
@@ -89,7 +94,9 @@ func (env *Zlisp) Close() error {
 // NewZlispSandbox returns a new *Zlisp instance that does not allow the
 // user to get to the outside world
 func NewZlispSandbox() *Zlisp {
-	return NewZlispWithFuncs(SandboxSafeFunctions())
+	env := NewZlispWithFuncs(SandboxSafeFunctions())
+	env.sandboxed = true
+	return env
 }
 
 // NewZlispWithFuncs returns a new *Zlisp instance with access to only the given builtin functions
@@ -161,6 +168,7 @@ func (env *Zlisp) Clone() *Zlisp {
 	dupenv.symtable = env.symtable
 	dupenv.revsymtable = env.revsymtable
 	dupenv.nextsymbol = env.nextsymbol
+	dupenv.sandboxed = env.sandboxed
 	dupenv.before = env.before
 	dupenv.after = env.after
 	dupenv.infixOps = env.infixOps
@@ -192,6 +200,7 @@ func (env *Zlisp) Duplicate() *Zlisp {
 	dupenv.symtable = env.symtable
 	dupenv.revsymtable = env.revsymtable
 	dupenv.nextsymbol = env.nextsymbol
+	dupenv.sandboxed = env.sandboxed
 	dupenv.before = env.before
 	dupenv.after = env.after
 	dupenv.infixOps = env.infixOps
